@@ -58,6 +58,7 @@ type FileIP struct {
 	doStream  bool
 	lock      *sync.Mutex
 	SubStream *InPort
+	taskDir   string // Temp dir of the task that the IP is an output of, if any
 }
 
 // NewFileIP creates a new FileIP
@@ -237,9 +238,15 @@ func (ip *FileIP) Read() []byte {
 
 // Write writes a byte array ([]byte) to the file's temp file path
 func (ip *FileIP) Write(dat []byte) {
-	ip.createDirs("")
-	err := ioutil.WriteFile(ip.TempPath(), dat, 0644)
-	CheckWithMsg(err, "Could not write to temp file: "+ip.TempPath())
+	ip.createDirs(ip.taskDir)
+	tempPath := ip.TempPath()
+	if ip.taskDir != "" {
+		// Out-IPs of a task are written inside the task's temp dir, from
+		// where they are moved to their final path when the task has finished
+		tempPath = ip.taskDir + "/" + tempPath
+	}
+	err := ioutil.WriteFile(tempPath, dat, 0644)
+	CheckWithMsg(err, "Could not write to temp file: "+tempPath)
 }
 
 const (
